@@ -133,6 +133,7 @@ class FnItem:
     def __init__(self, name, owner, params, ret, body):
         self.name, self.owner, self.params, self.ret, self.body = name, owner, params, ret, body
         self.generics = []
+        self.fn_gen = []
 
 
 class FileIndex:
@@ -281,8 +282,11 @@ class FileIndex:
             if k == "id" and v == "fn" and t[i + 1][0] == "id":
                 name = t[i + 1][1]
                 j = i + 2
+                fn_gen = []
                 if t[j] == ("op", "<"):
-                    j = skip_generics(t, j)
+                    j2 = skip_generics(t, j)
+                    fn_gen = t[j:j2]
+                    j = j2
                 if t[j] != ("op", "("):
                     i += 1
                     continue
@@ -303,6 +307,7 @@ class FileIndex:
                     ret = ret[:ret.index(("id", "where"))]
                 it = FnItem(name, owner, params, ret, t[q + 1:bc])
                 it.generics = list(self.cur_generics)
+                it.fn_gen = fn_gen
                 self.fns.setdefault((owner, name), it)
                 i = bc + 1
                 continue
